@@ -967,7 +967,7 @@ class PE:
         return els, True
 
     # ---------------------------------------------------------------- binding
-    def bind(self, target: ast.AST, v: V, p: Path) -> None:
+    def bind(self, target: ast.AST, v: V, p: Path, key: Optional[V] = None) -> None:
         if isinstance(target, ast.Name):
             p.env[target.id] = v
         elif isinstance(target, (ast.Tuple, ast.List)):
@@ -992,7 +992,7 @@ class PE:
                 p.events.append(("setattr", show(recv), target.attr, v))
         elif isinstance(target, ast.Subscript):
             c = self.ev1(target.value, p)
-            k = self.ev1(target.slice, p)
+            k = key if key is not None else self.ev1(target.slice, p)
             if isinstance(c, Dct) and isinstance(target.value, ast.Name):
                 c2 = Dct(c.kind, c.entries, c.open, c.name)
                 c2.entries[show(k)] = (k, v)
